@@ -40,12 +40,17 @@ def _bind_tree():
 # ambient configurations: the module's small exploration is repeated in fresh interpreters that differ in something
 # no operation of the alphabet changes - the interpreter's flags, the level of the models' logger
 AMBIENT = [{'pyflags': ['-O'], 'env': {}},
+           # warnings turned into errors (a CI setting): deprecation warnings excepted, the harnesses use the deprecated
+           # spellings on purpose
+           {'pyflags': ['-W', 'error', '-W', 'ignore::DeprecationWarning'], 'env': {}},
            {'pyflags': [], 'env': {'VERIF_LOGGER_LEVEL': '10'}},
            {'pyflags': [], 'env': {'VERIF_LOGGER_LEVEL': '30'}}]
 
 
 def _ambient_active(amb):
     if '-O' in amb.get('pyflags', ()) and sys.flags.optimize < 1:
+        return False
+    if '-W' in amb.get('pyflags', ()) and not sys.warnoptions:
         return False
     return all(os.environ.get(k) == v for k, v in amb.get('env', {}).items())
 
@@ -125,7 +130,8 @@ def main():
     os.environ.setdefault('ECAGENT_VERIF', '1')
     tree = _bind_tree()
     import warnings
-    warnings.simplefilter('ignore')
+    if not sys.warnoptions:      # an ambient leg started with -W keeps the filters it was given
+        warnings.simplefilter('ignore')
 
     from mc.engine.report import Ctx, Violation, HarnessError, write_evidence, write_replay
     pid = args.prop.upper()
